@@ -261,7 +261,7 @@ class Ctx:
         assert -(1 << (self.W - 1)) <= lo and hi < (1 << (self.W - 1)), \
             'domain does not fit width %d' % self.W
         e = z3.BitVec(name, self.W)
-        self.inputs.append((name, 'int', e, None))
+        self.inputs.append((name, 'int', e, (lo, hi)))
         self.add(z3.And(e >= lo, e <= hi))
         return SInt(e, lo, hi)
 
@@ -279,7 +279,7 @@ class Ctx:
             assert len(v) == n, (name, len(v), n)
             return v
         items = [z3.BitVec('%s[%d]' % (name, i), 8) for i in range(n)]
-        self.inputs.append((name, 'bytes', items, None))
+        self.inputs.append((name, 'bytes', items, n))
         return SBytes(items)
 
     def choice(self, name, options):
